@@ -46,11 +46,24 @@ func (r *refRegistry) add(reg kit.Reg) (bool, bool) {
 		return false, false
 	}
 	var nd []refDesc
+	both := false
 	if reg.Form == kit.FormVoid {
 		nd = []refDesc{{Reg: reg.ID, Life: reg.Life, Void: true}}
 	}
 	seen := map[kit.Ident]bool{}
 	for _, p := range reg.Provides() {
+		if p.Ident.Key != "" && p.Ident.Group != "" {
+			// a result-object field tagged with both a name and a group: it occupies the keyed identity
+			// (type, name); what else it means is not defined, so after an accepted one only no-panic is checked
+			kid := kit.Ident{T: p.Ident.T, Key: p.Ident.Key}
+			if r.has(kid) || seen[kid] {
+				return false, true
+			}
+			seen[kid] = true
+			both = true
+			nd = append(nd, refDesc{Reg: reg.ID, Out: p.Out, Ident: kid, Life: reg.Life})
+			continue
+		}
 		if p.Ident.Group == "" {
 			if r.has(p.Ident) || seen[p.Ident] {
 				return false, true
@@ -58,6 +71,9 @@ func (r *refRegistry) add(reg kit.Reg) (bool, bool) {
 			seen[p.Ident] = true
 		}
 		nd = append(nd, refDesc{Reg: reg.ID, Out: p.Out, Ident: p.Ident, Life: reg.Life})
+	}
+	if both {
+		r.tainted = "accepted a result-object field tagged with both name and group"
 	}
 	r.descs = append(r.descs, nd...)
 	cp := reg
